@@ -26,7 +26,7 @@ pub fn blocks(thorough: bool) -> Vec<Block> {
     let grid44: Vec<(u32, u32)> = (1..=4).flat_map(|r| (1..=4).map(move |l| (r, l))).chain([(50, 1), (1, 50)]).collect();
     let grid22: Vec<(u32, u32)> = vec![(1, 1), (2, 1), (1, 2), (2, 2), (3, 1), (1, 3)];
     let bases_all = [0, D, W, NW, I, E, X, E | X, D | W | S];
-    let units: Vec<&str> = vec!["a\u{1f3fb}", "\u{1f1e9}\u{1f1ea}", "\u{1100}\u{1161}\u{11a8}", "\u{1f44d}\u{1f3fb}", "a", "\u{301}", "\\"];
+    let units: Vec<&str> = vec!["a\u{1f3fb}", "\u{1f1e9}\u{1f1ea}", "\u{1100}\u{1161}\u{11a8}", "\u{1f44d}\u{1f3fb}", "a", "\u{301}", "\\", "\u{d4e}a", ".\u{1f3fb}", "1\u{e33}"];
     let mut b = vec![];
     if !thorough {
         b.push(Block::new(Universe::new("U_ab3{a,b}", &["a", "b"], 3, 0, true), thr(&[0], &grid22), "r x thresholds {(1,1),(2,1),(1,2),(2,2),(3,1),(1,3)}"));
@@ -51,6 +51,21 @@ pub fn blocks(thorough: bool) -> Vec<Block> {
         b.push(Block::new(u_long_runs(40), thr(&[0, D, X], &[(1, 1), (1, 2), (3, 1)]), "r x {{}, d, x} x {(1,1),(1,2),(3,1)}"));
         b.push(Block::new(u_many(30), thr(&[0, D], &[(1, 1)]), "r x {{}, d}"));
         b.push(Block::new(u_nested_rep(), thr(&[0, X], &[(1, 1)]), "r x {{}, x}"));
+        b.push(Block::new(u_long_units(), thr(&[0], &[(1, 1), (2, 1)]), "r x {(1,1),(2,1)}"));
+        {
+            // two test cases with different heads whose tails print alike but are different labels: the class token \d
+            // next to the literal text backslash-d (d + r), four tokens each
+            let toks = ["\\d", "1", "a"];
+            let tails = words(&toks, 4, false);
+            let mut w = vec![];
+            for t in tails.iter().filter(|t| t.contains('\\') || t.contains('1')) {
+                w.push(format!("x{t}"));
+                w.push(format!("y{t}"));
+            }
+            let mut u = Universe::from_words("U_headtok{x,y}.{\\d,1,a}^<=4, pairs with different heads", w, 2);
+            u.sets.retain(|s| s.len() == 2 && u.words[s[0]].chars().next() != u.words[s[1]].chars().next());
+            b.push(Block::new(u, thr(&[D], &[(1, 1)]), "r+d"));
+        }
         b.push(Block::new(u_prefix_suffix2(4), thr(&[0], &[(1, 1)]), "r"));
         b.push(Block::new(u_rep_single(&["\\d", "1", "d"], 8), thr(&[D], &[(1, 1)]), "r+d (a literal backslash-letter pair and the class token with the same text inside repeated blocks of one test case)"));
         b.push(Block::new(u_rep_single(&["\\s", " ", "s"], 8), thr(&[S], &[(1, 1)]), "r+s"));
